@@ -663,11 +663,97 @@ func (r *FnRun) next(fr *Frame, st *State, x *ssa.Next) Val {
 	k := r.keyTerm(kv)
 	_, dom := r.mapDom(st, mt)
 	r.assume(Imp(okT, Select(Select(dom, m), k)))
+	// The iteration visits every key once: the set of keys handed out so far is
+	// ghost state of the iterator ("visited(m, k)" in loop invariants). When the
+	// iteration ends, every key the map had when it began has been handed out —
+	// unless the loop itself changes maps of this type (Go then promises less).
+	ik := iterKey(rng)
+	if vis, ok := st.ghost[ik]; ok {
+		r.assume(Imp(okT, Not(Select(vis, k))))
+		if !r.loopChangesMap(fr, x, mt) {
+			if dom0, ok := st.ghost[ik+"|dom0"]; ok {
+				r.ctr++
+				q := fmt.Sprintf("q_mk_%d", r.ctr)
+				r.assume(Imp(Not(okT), Term{fmt.Sprintf("(forall ((%s %s)) (=> (select %s %s) (select %s %s)))", q, k.Sort, dom0.S, q, vis.S, q), SBool}))
+			}
+		}
+		nv := r.fresh("vis", vis.Sort)
+		r.assume(Eq(nv, Ite(okT, Store(vis, k, TTrue), vis)))
+		st.ghost[ik] = nv
+	}
 	v := r.loadTyped(st, mp.Elem(), "", func(path string, s Sort) Term {
 		_, arr := r.mapValArr(st, mt, path, s)
 		return Select(Select(arr, m), k)
 	})
 	return TupleVal{okT, kv, v}
+}
+
+// iterKey names the ghost state of one map iteration.
+func iterKey(rng *ssa.Range) string {
+	return fmt.Sprintf("iter#%s#%d", rng.Parent().String(), rng.Pos())
+}
+
+// rangeInit starts a map iteration: nothing visited yet, and the key set of
+// the map at this moment is remembered.
+func (r *FnRun) rangeInit(fr *Frame, st *State, x *ssa.Range) {
+	mt := x.X.Type()
+	mp, ok := under(mt).(*types.Map)
+	if !ok || singleLeaf(mp.Key()) == nil {
+		return
+	}
+	ks, _ := r.mapKeys(mt)
+	m := termOf(r.val(fr, st, x.X))
+	_, dom := r.mapDom(st, mt)
+	srt := SArr(ks, SBool)
+	vis := r.fresh("vis", srt)
+	r.assume(Eq(vis, Term{fmt.Sprintf("((as const %s) false)", srt), srt}))
+	d0 := r.fresh("itdom", srt)
+	r.assume(Eq(d0, Select(dom, m)))
+	st.ghost[iterKey(x)] = vis
+	st.ghost[iterKey(x)+"|dom0"] = d0
+}
+
+// loopChangesMap: does a loop around the Next instruction update or delete
+// from maps of type mt (or do something whose effect is not known)?
+func (r *FnRun) loopChangesMap(fr *Frame, x *ssa.Next, mt types.Type) bool {
+	found := false
+	for _, l := range fr.loops.list {
+		if !l.body[x.Block()] {
+			continue
+		}
+		found = true
+		ms := r.e.loopMods(fr.fn, l, r)
+		if ms.all {
+			return true
+		}
+		pre := "map:" + typeKey(mt) + "|"
+		for k := range ms.keys {
+			if strings.HasPrefix(k, pre) {
+				return true
+			}
+		}
+	}
+	return !found
+}
+
+// havocIters forgets how far the map iterations driven from inside loop l have come.
+func (r *FnRun) havocIters(fr *Frame, st *State, l *loopT) {
+	for _, b := range fr.fn.Blocks {
+		if !l.body[b] {
+			continue
+		}
+		for _, in := range b.Instrs {
+			nx, ok := in.(*ssa.Next)
+			if !ok || nx.IsString {
+				continue
+			}
+			if rng, ok := nx.Iter.(*ssa.Range); ok {
+				if vis, ok := st.ghost[iterKey(rng)]; ok {
+					st.ghost[iterKey(rng)] = r.fresh("vis", vis.Sort)
+				}
+			}
+		}
+	}
 }
 
 func (r *FnRun) selectOp(fr *Frame, st *State, x *ssa.Select) Val {
